@@ -1,8 +1,320 @@
-"""C16 — Poisson solvers (DESIGN 8/C16): bounded run-time contracts (rtc/C16.py); proof obligations for the algebra the library owns are added in build()."""
-from contracts._bounded_only import make_main
+"""C16 — Poisson solvers (DESIGN 8/C16).
 
-main = make_main("C16", ["bounded layer only: real functions under executable postconditions on a generated family (rtc/C16.py); nothing is proved"])
+What the library owns around SciPy's ODE/NNLS solvers and its own radial solver is put under contract; the accuracy of the solution itself
+(the per-(l,m) radial ODE, splines, SciPy) is decided by the bounded layer only (closed-form potentials of s/p/d/f Gaussians, rtc/C16.py).
+
+  _build_core_density      loop contract over a symbolic number K of primitives: the result at a generic point is
+                           sum_k c_k (alpha_k/pi)^(3/2) exp(-alpha_k |x - x0|^2)   -- the density whose potential coulomb_gaussian_s
+                           (normalized=True) is (C17);
+  solve_poisson_robust     (1-2 atoms instantiated, symbolic grid size / data; parameter loader, core density, plain solver, Coulomb
+                           potential and the NNLS fit through recording contracts)
+                             - the plain solver receives  rho - sum_a core_a  (split 1) resp. the fit's residual (split 2), the
+                               caller's grid, transform and keyword arguments; the caller's density array is not written;
+                             - the returned callable is  sum_a V_core_a + V_fit + V_numerical  at every point;
+                             - per atom the SAME (coefficients, exponents, centre) are used for the subtracted density and the added
+                               potential (normalized Gaussians), the fit's (coefficients, exponents, centres) for V_fit;
+                             - argument validation;
+  _interpolate_molgrid_helper   (two atoms) atom a's solver gets molgrid[a] and the segment of f x aim-weights delimited by the index
+                           table; the result is the sum of the per-atom callables; an AtomGrid is wrapped with unit weights; f is not written.
+"""
+from __future__ import annotations
+
+import z3
+
+from pyvc import framework
+from pyvc import interp as I
+from pyvc import npmodel as M
+from pyvc import terms as T
+
+IS, RS = z3.IntSort(), z3.RealSort()
+MODR = "grid.robust_poisson"
+MODP = "grid.poisson"
+NP = z3.Int("n_grid")
+NE = z3.Int("n_eval")
+RHO = z3.Function("rho", IS, RS)
+GP = z3.Function("grid_point", IS, IS, RS)
+EP = z3.Function("eval_point", IS, IS, RS)
+i0, j0 = z3.Ints("i0 j0")
+
+
+def core_density(chk):
+    eng = chk.eng
+    fq = f"{MODR}._build_core_density"
+    K = z3.Int("K")
+    cf = z3.Function("c", IS, RS)
+    al = z3.Function("alpha", IS, RS)
+    ctr = [z3.Real(f"x0_{c}") for c in range(3)]
+    r2 = sum(((GP(i0, c) - ctr[c]) * (GP(i0, c) - ctr[c]) for c in range(3)), z3.RealVal(0))
+
+    def term(k):
+        k = T.zi(k)
+        return T.mul(T.mul(cf(k), T.power(T.truediv(al(k), T.PI), T.from_float(1.5))), T.apply_uf("exp", T.mul(T.neg(al(k)), r2_term[0])))
+    r2_term = [None]
+
+    def thunk(eng_):
+        eng_.assume(z3.And(K >= 0, NP >= 1, i0 >= 0, i0 < NP))
+        pts = I.Arr((NP, 3), lambda i, c: GP(T.zi(i), T.zi(c)), "real")
+        center = I.Arr((3,), lambda c: M.select_const(c, [lambda v=v: v for v in ctr]), "real")
+        co = I.Arr((K,), lambda k: cf(T.zi(k)), "real")
+        a_ = I.Arr((K,), lambda k: al(T.zi(k)), "real")
+
+        def inv(fr, kk):
+            rho = fr.load_name("rho")
+            r_sq = fr.load_name("r_sq")
+            r2_term[0] = r_sq.fn(i0)
+            return z3.And(z3.BoolVal(rho.ndim == 1), T.zi(rho.shape[0]) == NP, T.zr(rho.fn(i0)) == ps.P(T.zi(kk)))
+        eng_.loop_specs[(fq, 1)] = I.LoopSpec(inv, name="primitives", modifies=["rho"])
+        try:
+            out = eng_.call(eng_.get_function(MODR, "_build_core_density"), [pts, center, co, a_])
+            return out
+        finally:
+            eng_.loop_specs.pop((fq, 1), None)
+    ps = framework.PrefixSum("core", term)
+    nund = len(chk.undecided)
+    outs = chk.explore("_build_core_density", thunk, func=fq)
+    if len(chk.undecided) == nund:
+        ok = any(o.kind == "return" for o in outs) and any(o.kind == "end" for o in outs) and not any(o.kind == "raise" for o in outs)
+        chk.add("_build_core_density/paths/loop-exit-and-loop-step-explored-no-raise", [], z3.BoolVal(ok), func=fq, meta={"replay": {"what": "core", "shared": True}})
+    for oi, o in enumerate(outs):
+        kv = [u for u in T.subterms(z3.And(*[h for h in o.pc if T.is_sym(h)] + [ob.goal for ob in o.obligations if T.is_sym(ob.goal)] + [z3.BoolVal(True)])).values()
+              if z3.is_const(u) and u.decl().name().startswith("k!")]
+        defs = ps.unfold(*kv)
+        for ob in o.obligations:
+            ob.hyps = list(ob.hyps) + defs
+        chk.add_from_path(f"_build_core_density/path{oi}", o, func=fq, meta={"replay": {"what": "core", "shared": True}})
+        if o.kind == "return":
+            out = o.value
+            # the distance is the squared Euclidean distance to the centre
+            chk.add("_build_core_density/post/distance-is-the-squared-distance-to-the-centre", list(o.pc), T.zr(r2_term[0]) == r2, func=fq, meta={"replay": {"what": "core", "shared": True}})
+            chk.add("_build_core_density/post/sum-of-normalised-gaussians-at-every-point", list(o.pc) + defs,
+                    z3.And(z3.BoolVal(out.ndim == 1), T.zi(out.shape[0]) == NP, T.zr(out.fn(i0)) == ps.P(K)), func=fq, meta={"replay": {"what": "core", "shared": True}})
+            chk.canary("_build_core_density", list(o.pc))
+
+
+def robust_composition(chk):
+    eng = chk.eng
+    fq = f"{MODR}.solve_poisson_robust"
+    KA = z3.Function("n_primitives", IS, IS)
+    PC = z3.Function("param_coeff", IS, IS, RS)       # (atomic number, k)
+    PA = z3.Function("param_alpha", IS, IS, RS)
+    CORE = z3.Function("core_density_value", IS, IS, RS)     # (call number, grid point)
+    VC = z3.Function("coulomb_value", IS, IS, RS)             # (call number, evaluation point)
+    SOL = z3.Function("numerical_potential", IS, RS)
+    FITR = z3.Function("fit_residual", IS, RS)
+    FC = z3.Function("fit_coeff", IS, RS)
+    FA = z3.Function("fit_alpha", IS, RS)
+    FX = z3.Function("fit_centre", IS, IS, RS)
+    NF = z3.Int("n_fit")
+
+    for natoms in (1, 2):
+        for split2 in (False, True):
+            name = f"solve_poisson_robust/{natoms}-atoms/split2-{split2}"
+            rep = {"what": "robust", "atoms": natoms, "split2": split2, "shared": True}
+            ZA = [z3.Int(f"Z{a}") for a in range(natoms)]
+            XA = [[z3.Real(f"R{a}{c}") for c in range(3)] for a in range(natoms)]
+            rec = {"load": [], "core": [], "bvp": [], "coul": [], "fit": []}
+
+            def thunk(eng_, natoms=natoms, split2=split2, ZA=ZA, XA=XA, rec=rec):
+                for v in rec.values():
+                    del v[:]
+
+                def load(eng__, f, args, kwargs):
+                    z = args[0]
+                    rec["load"].append(z)
+                    z = T.zi(M.unwrap(z))
+                    eng__.assume(KA(z) >= 1)
+                    return (I.Arr((KA(z),), lambda k, z=z: PC(z, T.zi(k)), "real"), I.Arr((KA(z),), lambda k, z=z: PA(z, T.zi(k)), "real"))
+
+                def core(eng__, f, args, kwargs):
+                    n = len(rec["core"])
+                    rec["core"].append(list(args))
+                    return I.Arr((NP,), lambda i, n=n: CORE(n, T.zi(i)), "real")
+
+                def bvp(eng__, f, args, kwargs):
+                    rec["bvp"].append((list(args), dict(kwargs)))
+
+                    def sol(eng___, pts):
+                        rec["bvp"].append(("eval", pts))
+                        return I.Arr((pts.shape[0],), lambda j: SOL(T.zi(j)), "real")
+                    return I.Model("phi_residual", sol)
+
+                def coul(eng__, f, args, kwargs):
+                    n = len(rec["coul"])
+                    rec["coul"].append((list(args), dict(kwargs)))
+                    pts = args[0]
+                    return I.Arr((pts.shape[0],), lambda j, n=n: VC(n, T.zi(j)), "real")
+
+                def fit(eng__, f, args, kwargs):
+                    rec["fit"].append(list(args))
+                    eng__.assume(NF >= 0)
+                    return (I.Arr((NF,), lambda k: FC(T.zi(k)), "real"), I.Arr((NF,), lambda k: FA(T.zi(k)), "real"),
+                            I.Arr((NF, 3), lambda k, c: FX(T.zi(k), T.zi(c)), "real"), I.Arr((NP,), lambda i: FITR(T.zi(i)), "real"))
+                GEO = z3.Function("geomspace_value", IS, RS)
+                _q = z3.Int("q_any")
+
+                def geomspace(eng__, a, b, n=50, **kw):
+                    # np.geomspace(a, b, n) with 0 < a < b: n positive values (the default exponent basis)
+                    eng__.assume(z3.ForAll([_q], GEO(_q) > 0))
+                    return I.Arr((n,), lambda k: GEO(T.zi(k)), "real")
+                eng_.externals["numpy.geomspace"] = geomspace
+                cc = eng_.callee_contracts
+                cc["grid.coulomb.load_atomic_gaussian_params"] = load
+                cc[f"{MODR}._build_core_density"] = core
+                cc["grid.poisson.solve_poisson_bvp"] = bvp
+                cc["grid.coulomb.coulomb_potential"] = coul
+                cc[f"{MODR}._fit_residual_gaussians"] = fit
+                try:
+                    eng_.assume(z3.And(NP >= 1, NE >= 1, i0 >= 0, i0 < NP, j0 >= 0, j0 < NE))
+                    mg = I.Obj(eng_.get_class("grid.molgrid", "MolGrid"))
+                    mg.fields.update(_points=I.Arr((NP, 3), lambda i, c: GP(T.zi(i), T.zi(c)), "real"), _weights=I.Arr((NP,), lambda i: z3.RealVal(1), "real"), _kdtree=None)
+                    dens = I.Arr((NP,), lambda i: RHO(T.zi(i)), "real")
+                    before = dens.fn
+                    tf = I.Opaque("transform")
+                    atnums = I.Arr((natoms,), lambda a: M.select_const(a, [lambda v=v: v for v in ZA]), "int")
+                    atcoords = I.Arr((natoms, 3), lambda a, c: M.select_const(a, [lambda a_=a_: M.select_const(c, [lambda v=v: v for v in XA[a_]]) for a_ in range(natoms)]), "real")
+                    V = eng_.call(eng_.get_function(MODR, "solve_poisson_robust"), [mg, dens, tf, atnums, atcoords], {"split2": split2, "tol": T.from_float(1e-7)})
+                    ev = I.Arr((NE, 3), lambda j, c: EP(T.zi(j), T.zi(c)), "real")
+                    n_coul_before = len(rec["coul"])
+                    out = eng_.call(V, [ev])
+                    out2 = eng_.call(V, [ev])      # the callable can be evaluated repeatedly
+                    return dict(out=out, out2=out2, mg=mg, dens=dens, untouched=dens.fn is before, tf=tf, rec={k: list(v) for k, v in rec.items()}, ev=ev,
+                                n_coul_before=n_coul_before)
+                finally:
+                    eng_.externals.pop("numpy.geomspace", None)
+                    for k in ("grid.coulomb.load_atomic_gaussian_params", f"{MODR}._build_core_density", "grid.poisson.solve_poisson_bvp", "grid.coulomb.coulomb_potential",
+                              f"{MODR}._fit_residual_gaussians"):
+                        cc.pop(k, None)
+            outs = chk.explore(name, thunk, func=fq)
+            rets = [o for o in outs if o.kind == "return"]
+            chk.add(f"{name}/post/returns-on-every-path", [], z3.BoolVal(bool(rets) and len(rets) == len(outs)), func=fq,
+                    meta={"replay": rep, "paths": str([(o.kind, o.exc, o.note) for o in outs])})
+            for oi, o in enumerate(rets):
+                v = o.value
+                r = v["rec"]
+                hy = list(o.pc)
+                sfx = f"@{oi}" if len(rets) > 1 else ""
+                chk.add_from_path(f"{name}/path{oi}", o, func=fq, meta={"replay": rep})
+                solves = [x for x in r["bvp"] if x[0] != "eval"]
+                struct = len(r["load"]) == natoms and len(r["core"]) == natoms and len(solves) == 1 and len(r["fit"]) == (1 if split2 else 0)
+                chk.add(f"{name}/post/one-parameter-set-and-core-density-per-atom-one-solve{sfx}", [], z3.BoolVal(struct), func=fq, meta={"replay": rep})
+                if not struct:
+                    continue
+                goals = []
+                ok = True
+                for a in range(natoms):
+                    goals.append(T.zi(M.unwrap(r["load"][a])) == ZA[a])
+                    ca = r["core"][a]
+                    okc = len(ca) == 4 and isinstance(ca[1], I.Arr) and isinstance(ca[2], I.Arr) and isinstance(ca[3], I.Arr) and isinstance(ca[0], I.Arr) and ca[0].ndim == 2
+                    ok = ok and okc
+                    if okc:
+                        k0 = z3.Int("k0")
+                        goals += [T.zr(ca[1].fn(c)) == XA[a][c] for c in range(3)]
+                        goals += [T.zr(ca[0].fn(i0, c)) == GP(i0, c) for c in range(3)]
+                        goals.append(z3.Implies(z3.And(k0 >= 0, k0 < KA(ZA[a])), z3.And(T.zr(ca[2].fn(k0)) == PC(ZA[a], k0), T.zr(ca[3].fn(k0)) == PA(ZA[a], k0))))
+                        goals.append(z3.And(T.zi(ca[2].shape[0]) == KA(ZA[a]), T.zi(ca[3].shape[0]) == KA(ZA[a])))
+                chk.add(f"{name}/post/core-density-built-from-the-atoms-own-parameters-centre-and-the-grid-points{sfx}", hy, z3.And(z3.BoolVal(ok), *goals), func=fq, meta={"replay": rep})
+                # what the plain solver receives
+                sargs, skw = solves[0]
+                okb = len(sargs) >= 3 and sargs[0] is v["mg"] and sargs[2] is v["tf"] and isinstance(sargs[1], I.Arr) and T.is_sym(skw.get("tol")) is not None and "tol" in skw
+                want = RHO(i0) - sum((CORE(a, i0) for a in range(natoms)), z3.RealVal(0)) if not split2 else FITR(i0)
+                chk.add(f"{name}/post/plain-solver-gets-grid-transform-keywords-and-the-{'fit' if split2 else 'core-subtracted'}-residual{sfx}", hy,
+                        z3.And(z3.BoolVal(bool(okb)), T.zi(sargs[1].shape[0]) == NP, T.zr(sargs[1].fn(i0)) == want) if okb else z3.BoolVal(False), func=fq, meta={"replay": rep})
+                if split2:
+                    fa = r["fit"][0]
+                    okf = len(fa) == 4 and isinstance(fa[1], I.Arr) and isinstance(fa[0], I.Arr)
+                    chk.add(f"{name}/post/fit-sees-the-core-subtracted-residual-on-the-grid-points{sfx}", hy,
+                            z3.And(T.zr(fa[1].fn(i0)) == RHO(i0) - sum((CORE(a, i0) for a in range(natoms)), z3.RealVal(0)), *[T.zr(fa[0].fn(i0, c)) == GP(i0, c) for c in range(3)])
+                            if okf else z3.BoolVal(False), func=fq, meta={"replay": rep})
+                chk.add(f"{name}/frame/callers-density-array-is-not-written{sfx}", [], z3.BoolVal(bool(v["untouched"])), kind="frame", func=fq, meta={"replay": rep})
+                # the potential: first evaluation uses Coulomb calls n_coul_before .. ; one per atom (+ one for a non-empty fit)
+                nb = v["n_coul_before"]
+                per_eval = (len(r["coul"]) - nb) // 2
+                calls = r["coul"][nb: nb + per_eval]
+                expect = natoms + (1 if (split2 and per_eval == natoms + 1) else 0)
+                okn = per_eval == expect and per_eval >= natoms
+                chk.add(f"{name}/post/one-coulomb-evaluation-per-atom-and-one-for-a-non-empty-fit{sfx}", hy,
+                        z3.And(z3.BoolVal(bool(okn)), (NF > 0) if per_eval == natoms + 1 else ((NF <= 0) if split2 else z3.BoolVal(True))), func=fq, meta={"replay": rep})
+                if not okn:
+                    continue
+                total = sum((VC(nb + q, j0) for q in range(per_eval)), z3.RealVal(0)) + SOL(j0)
+                chk.add(f"{name}/post/potential-is-core-plus-fit-plus-numerical-at-every-point{sfx}", hy,
+                        z3.And(z3.BoolVal(v["out"].ndim == 1), T.zi(v["out"].shape[0]) == NE, T.zr(v["out"].fn(j0)) == total), func=fq, meta={"replay": rep})
+                pair = []
+                okp = True
+                k0 = z3.Int("k0")
+                for a in range(natoms):
+                    ca, ck = calls[a]
+                    kw = dict(ck)
+                    names = ["points", "centers_s", "coeffs_s", "alphas_s"]
+                    for q, x in enumerate(ca):
+                        kw[names[q]] = x
+                    good = all(isinstance(kw.get(n_), I.Arr) for n_ in names) and kw.get("normalized", True) is True and kw.get("centers_p") is None and kw.get("coeffs_p") is None
+                    okp = okp and good
+                    if good:
+                        rng = z3.And(k0 >= 0, k0 < KA(ZA[a]))
+                        pair.append(z3.And(T.zi(kw["coeffs_s"].shape[0]) == KA(ZA[a]), T.zi(kw["centers_s"].shape[0]) == KA(ZA[a])))
+                        pair.append(z3.Implies(rng, z3.And(T.zr(kw["coeffs_s"].fn(k0)) == PC(ZA[a], k0), T.zr(kw["alphas_s"].fn(k0)) == PA(ZA[a], k0),
+                                                           *[T.zr(kw["centers_s"].fn(k0, c)) == XA[a][c] for c in range(3)])))
+                        pair += [T.zr(kw["points"].fn(j0, c)) == EP(j0, c) for c in range(3)]
+                chk.add(f"{name}/post/core-potential-uses-the-same-parameters-and-centre-as-the-subtracted-density{sfx}", hy, z3.And(z3.BoolVal(okp), *pair), func=fq,
+                        meta={"replay": rep})
+                if per_eval == natoms + 1:
+                    ca, ck = calls[natoms]
+                    kw = dict(ck)
+                    for q, x in enumerate(ca):
+                        kw[["points", "centers_s", "coeffs_s", "alphas_s"][q]] = x
+                    good = all(isinstance(kw.get(n_), I.Arr) for n_ in ("centers_s", "coeffs_s", "alphas_s")) and kw.get("normalized", True) is True
+                    chk.add(f"{name}/post/fit-potential-uses-the-fitted-coefficients-exponents-and-centres{sfx}", hy + [k0 >= 0, k0 < NF],
+                            z3.And(T.zi(kw["coeffs_s"].shape[0]) == NF, T.zr(kw["coeffs_s"].fn(k0)) == FC(k0), T.zr(kw["alphas_s"].fn(k0)) == FA(k0),
+                                   *[T.zr(kw["centers_s"].fn(k0, c)) == FX(k0, c) for c in range(3)]) if good else z3.BoolVal(False), func=fq, meta={"replay": rep})
+                chk.add(f"{name}/post/second-evaluation-gives-the-same-composition{sfx}", hy,
+                        T.zr(v["out2"].fn(j0)) == sum((VC(nb + per_eval + q, j0) for q in range(per_eval)), z3.RealVal(0)) + SOL(j0), func=fq, meta={"replay": rep})
+                chk.canary(name, hy)
+
+    # argument validation
+    def bad(eng_, kind):
+        mg = I.Obj(eng_.get_class("grid.molgrid", "MolGrid"))
+        mg.fields.update(_points=I.Arr((NP, 3), lambda i, c: GP(T.zi(i), T.zi(c)), "real"), _weights=I.Arr((NP,), lambda i: z3.RealVal(1), "real"), _kdtree=None)
+        eng_.assume(NP >= 1)
+        cc = eng_.callee_contracts
+        cc["grid.coulomb.load_atomic_gaussian_params"] = lambda e, f, a, k: (I.Arr((2,), lambda q: z3.RealVal(1), "real"), I.Arr((2,), lambda q: z3.RealVal(1), "real"))
+        cc[f"{MODR}._build_core_density"] = lambda e, f, a, k: I.Arr((NP,), lambda i: z3.RealVal(0), "real")
+        try:
+            atn = I.Arr((1,), lambda a: z3.IntVal(1), "int")
+            atc = I.Arr((1, 3), lambda a, c: z3.RealVal(0), "real")
+            fn = eng_.get_function(MODR, "solve_poisson_robust")
+            if kind == "density-of-wrong-length":
+                return eng_.call(fn, [mg, I.Arr((NP + 1,), lambda i: RHO(T.zi(i)), "real"), I.Opaque("transform"), atn, atc])
+            if kind == "density-not-one-dimensional":
+                return eng_.call(fn, [mg, I.Arr((NP, 1), lambda i, c: RHO(T.zi(i)), "real"), I.Opaque("transform"), atn, atc])
+            if kind == "empty-basis":
+                return eng_.call(fn, [mg, I.Arr((NP,), lambda i: RHO(T.zi(i)), "real"), I.Opaque("transform"), atn, atc], {"split2": True, "alphas_basis": []})
+            if kind == "non-positive-exponent":
+                return eng_.call(fn, [mg, I.Arr((NP,), lambda i: RHO(T.zi(i)), "real"), I.Opaque("transform"), atn, atc], {"split2": True, "alphas_basis": [T.from_float(1.0), T.from_float(0.0)]})
+        finally:
+            cc.pop("grid.coulomb.load_atomic_gaussian_params", None)
+            cc.pop(f"{MODR}._build_core_density", None)
+    for kind in ("density-of-wrong-length", "density-not-one-dimensional", "empty-basis", "non-positive-exponent"):
+        outs = chk.explore(f"solve_poisson_robust/{kind}", lambda e, kind=kind: bad(e, kind), func=fq)
+        chk.add(f"solve_poisson_robust/raises/{kind}", [], z3.BoolVal(bool(outs) and all(o.kind == "raise" and o.exc == "ValueError" for o in outs)), func=fq,
+                meta={"replay": {"what": "robust", "shared": True}, "paths": str([(o.kind, o.exc, o.note) for o in outs])})
 
 
 def build(chk):
-    return None
+    core_density(chk)
+    robust_composition(chk)
+
+
+def main(tier="quick", seed=0, bounded=True, proof=True):
+    chk = framework.Check("C16", tier, seed, level="proof")
+    chk.trusted += [
+        "floats are reals (no rounding); exp and real powers as uninterpreted functions with ground axioms",
+        "solve_poisson_bvp / solve_poisson_ivp (radial ODEs through SciPy, splines, harmonics) are NOT proved: their accuracy against closed-form "
+        "potentials, linearity and the option matrix are decided by the bounded layer only",
+        "recording contracts: load_atomic_gaussian_params returns (coefficients, exponents) of the element; coulomb_potential is the potential of its "
+        "normalized Gaussians (C17); scipy.optimize.nnls / _fit_residual_gaussians return a fit and its residual",
+        "number of atoms instantiated (1-2) in the composition obligations; grid size, data, number of primitives and fit size symbolic",
+    ]
+    if proof:
+        build(chk)
+    return chk.finish(bounded_args=[] if bounded else None)
